@@ -18,6 +18,12 @@
        both the target and the document array are exhausted;
      std::vector<bool> (its own loop) -> as a sequence container, but an element that is not loaded takes
        the value of the PREVIOUS element (the loop assigns the same local variable again; false for the first);
+     std::tuple<T1, .., Tn> (SerializeArray of a tuple, since 9e55af6) -> OpenArrayScope, then per component: IsEnd();
+       once it has answered true the array is "shorter" and neither IsEnd() nor a load is issued for the remaining
+       components, which keep their values; a shorter array is MismatchedTypes under the Throw policy; then IsEnd()
+       once more: elements left over are MismatchedTypes under Throw and passed over under Skip.  An error raised
+       inside a component propagates (known finding M02, fixed).  std::pair is a class with the members "key" and
+       "value" (SClass);
      std::map<K, V> (SerializeMapImpl, MapLoadMode::Clean) with K = std::string or an integer type ->
        OpenObjectScope, clear(), VisitKeys; in the callback: ConvertByPolicy(archive key -> K),
        try_emplace(hint, key), then the keyed load of the mapped value under the ARCHIVE key; a mapped
@@ -30,8 +36,6 @@
    load_tr is the association-list level: it consumes the scopes' ANSWERS (typed_spec of the value
    found, lookup of a member key) and returns them as tokens together with the loaded value.
    Not modelled here: MapLoadMode::OnlyExistKeys / UpdateKeys (load_tr has no initial target content),
-   std::tuple / std::pair (SerializeArray of a tuple swallows an OutOfRange raised while its components load,
-   under the Skip policy: an error in the middle of an error-free load, which the history language cannot express),
    validation.  On loads that end in an error the tokens are not claimed (only the error).  Definitions only. *)
 From BS Require Import Base MpSpec MpModel MpSaveModel MpScopeSpec.
 Local Open Scope N_scope.
@@ -87,7 +91,8 @@ Inductive shape :=
 | SClass (ms : list (list N * shape))    (* class: members (name, shape) in declaration order *)
 | SMap (ks : kshape) (e : shape)         (* std::map<K, e>, MapLoadMode::Clean *)
 | SArr (n : nat) (e : shape)             (* std::array<e, n>, e[n] *)
-| SVecBool.                              (* std::vector<bool> *)
+| SVecBool                               (* std::vector<bool> *)
+| STuple (ss : list shape).              (* std::tuple<ss...> *)
 
 Definition key_bytes (k : tv) : list N := match k with TStr s => s | _ => [] end.
 
@@ -129,6 +134,13 @@ Fixpoint has_shape (v : tv) (s : shape) {struct v} : bool :=
   | TArr l, SArr n e =>
     Nat.eqb (length l) n && (fix all (l : list tv) : bool := match l with [] => true | x :: t => has_shape x e && all t end) l
   | TArr l, SVecBool => (fix all (l : list tv) : bool := match l with [] => true | TBool _ :: t => all t | _ => false end) l
+  | TArr l, STuple ss =>
+    (fix all (l : list tv) (ss : list shape) : bool :=
+       match l, ss with
+       | [], [] => true
+       | x :: t, s' :: ss' => has_shape x s' && all t ss'
+       | _, _ => false
+       end) l ss
   | _, _ => false
   end.
 
@@ -166,6 +178,7 @@ Fixpoint default_of (s : shape) : tv :=
   | SMap _ _ => TObj []
   | SArr n e => TArr (repeat (default_of e) n)
   | SVecBool => TArr []
+  | STuple ss => TArr ((fix go (ss : list shape) : list tv := match ss with [] => [] | s' :: t => default_of s' :: go t end) ss)
   end.
 
 (* ---------- std::map: insertion, key conversion ---------- *)
@@ -211,6 +224,16 @@ Definition keys_list (kvs : list (mpv * mpv)) : list key :=
 Fixpoint modelled (s : shape) (v : mpv) {struct s} : bool :=
   match s with
   | SVec e | SArr _ e => match v with MArr vs => forallb (modelled e) vs | _ => true end
+  | STuple ss =>
+    match v with
+    | MArr vs =>
+      (fix go (ss : list shape) (vs : list mpv) : bool :=
+         match ss, vs with
+         | s' :: ss', x :: vs' => modelled s' x && go ss' vs'
+         | _, _ => true
+         end) ss vs
+    | _ => true
+    end
   | SClass ms =>
     match v with
     | MMap kvs =>
@@ -309,7 +332,7 @@ Section Load.
     end.
 
   Definition absent_toks (s : shape) : list tok :=
-    match s with SVec _ | SClass _ | SMap _ _ | SArr _ _ | SVecBool => [KNone] | SBytes => [KNone; KNone] | _ => [KFalse] end.
+    match s with SVec _ | SClass _ | SMap _ _ | SArr _ _ | SVecBool | STuple _ => [KNone] | SBytes => [KNone; KNone] | _ => [KFalse] end.
 
   (* SerializeMapImpl over the members of the document, in document order: key conversion, then the load of the
      mapped value under the archive key (which finds the member just visited); stop at an exception *)
@@ -355,6 +378,32 @@ Section Load.
       end.
   End Members.
 
+  (* SerializeArray(tuple): IsEnd() and a load per component while the array has elements; then the end check *)
+  Section Comps.
+    Variable load : shape -> mpv -> list tok * lres.
+    Fixpoint comps_tr (ss : list shape) (vs : list mpv) : list tok * list tv * option serr :=
+      match ss with
+      | [] =>
+        match vs with
+        | [] => ([KIsEnd true], [], None)
+        | _ => ([KIsEnd false], [], match o_mismatch o with PThrow => Some (SE EMismatch) | PSkip => None end)
+        end
+      | s' :: ss' =>
+        match vs with
+        | [] =>      (* the array is shorter than the tuple: IsEnd() once, then the end check *)
+          match o_mismatch o with
+          | PThrow => ([KIsEnd true], [], Some (SE EMismatch))
+          | PSkip => ([KIsEnd true; KIsEnd true], map default_of (s' :: ss'), None)
+          end
+        | v :: vs' =>
+          match load s' v with
+          | (t, LErr err) => (KIsEnd false :: t, [], Some err)
+          | (t, r) => match comps_tr ss' vs' with (t', items, err) => (KIsEnd false :: t ++ t', fill s' r :: items, err) end
+          end
+        end
+      end.
+  End Comps.
+
   (* answers consumed (as tokens) and loaded value, for a target of shape s at an array-element / root
      position holding the document value v *)
   Fixpoint load_tr (s : shape) (v : mpv) {struct s} : list tok * lres :=
@@ -393,6 +442,15 @@ Section Load.
       match v with
       | MArr vs =>
         match bools_tr (scalar_tr SBool (TgInt (mkIty false 1))) false vs with
+        | (t, items, None) => (KOpen :: t ++ [KClose], LOk (TArr items))
+        | (t, _, Some err) => (KOpen :: t, LErr err)
+        end
+      | _ => no_container v
+      end
+    | STuple ss =>
+      match v with
+      | MArr vs =>
+        match comps_tr load_tr ss vs with
         | (t, items, None) => (KOpen :: t ++ [KClose], LOk (TArr items))
         | (t, _, Some err) => (KOpen :: t, LErr err)
         end
@@ -445,6 +503,22 @@ Section MapActs.
     match kvs with [] => [] | kv :: kvs' => map_act kv :: map_acts kvs' end.
 End MapActs.
 
+(* the components of a tuple: IsEnd, component, ...; a shorter array: IsEnd (true), then the end check *)
+Section CompProgs.
+  Variable o : opts.
+  Variable eprog : shape -> mpv -> list areq.
+  Fixpoint comps_prog (ss : list shape) (vs : list mpv) : list areq :=
+    match ss with
+    | [] =>
+      AEnd :: (match vs, o_mismatch o with _ :: _, PThrow => [AThrow (SE EMismatch)] | _, _ => [] end)
+    | s' :: ss' =>
+      match vs with
+      | [] => AEnd :: (match o_mismatch o with PThrow => [AThrow (SE EMismatch)] | PSkip => [AEnd] end)
+      | v :: vs' => AEnd :: eprog s' v ++ comps_prog ss' vs'
+      end
+    end.
+End CompProgs.
+
 Section MemberProgs.
   Variable mprog : shape -> qkey -> option mpv -> list req.
   Variable kvs : list (mpv * mpv).
@@ -465,6 +539,7 @@ Section Progs.
     match s with
     | SVec e | SArr _ e => [AArr (arr_prog (elem_prog e) v)]
     | SVecBool => [AArr (arr_prog bool_prog v)]
+    | STuple ss => [AArr (match v with MArr vs => mk_areqs (comps_prog o elem_prog ss vs) | _ => ANil end)]
     | SBytes => match v with
                 | MBin bs => [ABin (length bs)]
                 | _ => [ABin 0; AArr (arr_prog u8_prog v)]
@@ -477,6 +552,7 @@ Section Progs.
     match s with
     | SVec e | SArr _ e => [RArr q (match ov with Some v => arr_prog (elem_prog e) v | None => ANil end)]
     | SVecBool => [RArr q (match ov with Some v => arr_prog bool_prog v | None => ANil end)]
+    | STuple ss => [RArr q (match ov with Some (MArr vs) => mk_areqs (comps_prog o elem_prog ss vs) | _ => ANil end)]
     | SBytes => match ov with
                 | Some (MBin bs) => [RBin q (length bs)]
                 | Some v => [RBin q 0; RArr q (arr_prog u8_prog v)]
@@ -491,6 +567,7 @@ Section Progs.
     match s with
     | SVec e | SArr _ e => VArr (arr_prog (elem_prog e) v)
     | SVecBool => VArr (arr_prog bool_prog v)
+    | STuple ss => VArr (match v with MArr vs => mk_areqs (comps_prog o elem_prog ss vs) | _ => ANil end)
     | SBytes => match v with
                 | MBin bs => VBin (length bs)
                 | _ => VBinArr 0 (arr_prog u8_prog v)
@@ -508,6 +585,7 @@ Section Progs.
     mk_reqs [REach (mk_vacts (map_acts o ks (vact_prog e) kvs))].
 
   Definition vec_prog (e : shape) (vs : list mpv) : areqs := mk_areqs (vec_body (elem_prog e) vs).
+  Definition tuple_prog (ss : list shape) (vs : list mpv) : areqs := mk_areqs (comps_prog o elem_prog ss vs).
 End Progs.
 
 (* ---------- reading the loaded value off the scopes' answers alone ---------- *)
@@ -575,8 +653,32 @@ Section ReadMembers.
     end.
 End ReadMembers.
 
+Section ReadComps.
+  Variable rd : shape -> list tok -> option (lres * list tok).
+  Fixpoint read_comps (ss : list shape) (t : list tok) : option (list tv * list tok) :=
+    match ss with
+    | [] => match t with KIsEnd _ :: KClose :: t' => Some ([], t') | _ => None end
+    | s' :: ss' =>
+      match t with
+      | KIsEnd true :: KIsEnd true :: KClose :: t' => Some (map default_of (s' :: ss'), t')
+      | KIsEnd false :: t1 =>
+        match rd s' t1 with
+        | Some (r, t') => match read_comps ss' t' with Some (items, t'') => Some (fill s' r :: items, t'') | None => None end
+        | None => None
+        end
+      | _ => None
+      end
+    end.
+End ReadComps.
+
 Fixpoint read_off (s : shape) (t : list tok) {struct s} : option (lres * list tok) :=
   match s with
+  | STuple ss =>
+    match t with
+    | KNone :: t' => Some (LNot, t')
+    | KOpen :: t' => match read_comps read_off ss t' with Some (items, t'') => Some (LOk (TArr items), t'') | None => None end
+    | _ => None
+    end
   | SVecBool =>
     match t with
     | KNone :: t' => Some (LNot, t')
@@ -620,6 +722,7 @@ Fixpoint map_free (s : shape) : bool :=
   | SVec e | SArr _ e => map_free e
   | SClass ms => (fix go (ms : list (list N * shape)) : bool := match ms with [] => true | (_, s') :: t => map_free s' && go t end) ms
   | SMap _ _ => false
+  | STuple ss => (fix go (ss : list shape) : bool := match ss with [] => true | s' :: t => map_free s' && go t end) ss
   | _ => true
   end.
 
